@@ -1503,13 +1503,23 @@ def _run(ck: Check):
     fields.main()
     proved = ck.lean_obligations()
     thorough = ck.tier == 'thorough'
-    part_witnesses(ck)
-    part_gates(ck)
-    part_objects(ck, 300 if thorough else 24)
-    part_passdata(ck, 150 if thorough else 10)
-    part_workflows(ck)
-    part_malformed(ck, 4000 if thorough else 300)
-    ncirc = part_circuits(ck, 3000 if thorough else 64, 18)
+    import time
+    phases = {}
+
+    def timed(name, f, *a):
+        t = time.time()
+        r = f(*a)
+        phases[name] = round(time.time() - t, 1)
+        return r
+    phases['lean_obligations'] = round(time.time() - ck.t0, 1)
+    timed('witnesses', part_witnesses, ck)
+    timed('gates', part_gates, ck)
+    timed('objects', part_objects, ck, 300 if thorough else 24)
+    timed('passdata', part_passdata, ck, 150 if thorough else 10)
+    timed('workflows', part_workflows, ck)
+    timed('malformed', part_malformed, ck, 4000 if thorough else 300)
+    ncirc = timed('circuits', part_circuits, ck, 2400 if thorough else 64, 18)
+    ck.coverage['phase_seconds'] = phases
     ck.coverage['circuits_from_histories'] = ncirc
     ck.coverage['rule'] = (
         'one evaluation = one object (or one payload / one PassData pair / '
